@@ -1,15 +1,18 @@
 #!/bin/bash
 # Runs every seeded change under /verif/seeded/C* against the check of the property it breaks
 # (and prints whether a VIOLATION was raised). /repo is restored after each.
+# EVAL_REPO / EVAL_BIN may name a scratch worktree and a copy of the analyser.
 cd /verif
-scripts/check C16 quick >/dev/null 2>&1
+repo=${EVAL_REPO:-/repo}
+bin=${EVAL_BIN:-/verif/bin/comdexlint}
+[ "$bin" = /verif/bin/comdexlint ] && scripts/check C16 quick >/dev/null 2>&1
 for d in /verif/seeded/C*/; do
   id=$(basename $d)
   prop=$(python3 -c "import json;print(json.load(open('$d/meta.json'))['property'])")
-  if ! git -C /repo apply --check $d/patch.diff 2>/dev/null; then echo "$id $prop PATCH-DOES-NOT-APPLY"; continue; fi
-  git -C /repo apply $d/patch.diff
-  out=$(VERIF_EVIDENCE_DIR=/tmp/seed-evidence /verif/bin/comdexlint -verif /verif -repo /repo -prop $prop -tier quick 2>&1)
-  git -C /repo checkout -- .
+  if ! git -C $repo apply --check $d/patch.diff 2>/dev/null; then echo "$id $prop PATCH-DOES-NOT-APPLY"; continue; fi
+  git -C $repo apply $d/patch.diff
+  out=$(VERIF_EVIDENCE_DIR=/tmp/seed-evidence $bin -verif /verif -repo $repo -prop $prop -tier quick 2>&1)
+  git -C $repo checkout -- .
   if echo "$out" | grep -q "^VIOLATION"; then
     rule=$(echo "$out" | grep -v "^KNOWN" | grep -o "\[R[0-9.a-z]*\]" | sort -u | tr '\n' ' ')
     echo "$id $prop DETECTED $rule"
